@@ -410,18 +410,32 @@ def check_find_class(case):
     class FCNAgent(pams.agents.Agent):        # a user class that shadows a built-in name
         def submit_orders(self, markets):
             return []
-    pool = {"none": None, "empty": [], "user": [UserAgent], "shadow": [FCNAgent], "both": [UserAgent, FCNAgent], "twice": [UserAgent, UserAgent]}[extra]
+    UserAgentB = type("UserAgent", (pams.agents.Agent,), {"submit_orders": lambda self, markets: []})      # a second, distinct user class of the same name
+    pool = {"none": None, "empty": [], "user": [UserAgent], "shadow": [FCNAgent], "both": [UserAgent, FCNAgent], "twice": [UserAgent, UserAgent], "homonyms": [UserAgent, UserAgentB]}[extra]
+    if case.get("via") == "runner" and pool is not None:
+        # the same pool built the way users build it: one Runner.class_register call per class; the lookup sees the runner's list
+        from pams.runners import SequentialRunner
+        r = SequentialRunner(settings={}, prng=random.Random(0))
+        listed = list(pool)
+        for c in listed:
+            r.class_register(c)
+        pool = r.registered_classes
+    else:
+        listed = list(pool or [])
     builtin = {}
     for mod in (pams, pams.agents, pams.events, pams.logs):
         if hasattr(mod, name):
             builtin[id(getattr(mod, name))] = getattr(mod, name)
-    cands = list(builtin.values()) + [c for c in (pool or []) if c.__name__ == name]
+    # candidates: the built-in classes of that name and the classes the USER listed / registered under that name (the same class object listed twice is one class:
+    # the lookup may then report the repetition or resolve to that class - both keep "exactly one class")
+    cands = list(builtin.values()) + [c for c in listed if c.__name__ == name]
+    distinct = list({id(c): c for c in cands}.values())
     try:
         got = find_class(name=name, optional_class_list=pool)
     except AttributeError:
         return None if len(cands) != 1 else f"find_class({name!r}, {extra}): exactly one class has that name but the lookup failed"
-    if len(cands) != 1:
-        return f"find_class({name!r}, {extra}): {len(cands)} classes have that name but {got} was returned"
+    if len(distinct) != 1:
+        return f"find_class({name!r}, {extra}{', registered through Runner.class_register' if case.get('via') else ''}): {len(distinct)} distinct classes have that name but {got} was returned"
     if got is not cands[0]:
         return f"find_class({name!r}, {extra}): returned {got}, the class of that name is {cands[0]}"
     return None
@@ -430,8 +444,11 @@ def check_find_class(case):
 def find_class_cases():
     for name in ("FCNAgent", "Market", "IndexMarket", "MarketMakerAgent", "ArbitrageAgent", "PriceLimitRule", "TradingHaltRule", "FundamentalPriceShock", "OrderMistakeShock", "Logger", "MarketStepPrintLogger",
                  "UserAgent", "NoSuchClass", "HighFrequencyAgent", "MarketShareFCNAgent", "Order", "Session", "Simulator"):
-        for extra in ("none", "empty", "user", "shadow", "both", "twice"):
+        for extra in ("none", "empty", "user", "shadow", "both", "twice", "homonyms"):
             yield {"name": name, "extra": extra}
+    for name in ("UserAgent", "FCNAgent", "NoSuchClass"):
+        for extra in ("user", "shadow", "both", "twice", "homonyms"):
+            yield {"name": name, "extra": extra, "via": "runner"}
 
 
 CHECKS["find_class"] = (find_class_cases, check_find_class)
